@@ -143,8 +143,15 @@ BIN_DTYPES = [("float64", "float64"), ("float32", "float64"), ("int64", "int64")
 
 
 def real_cpu_bin(vals, bins, newv):
-    from xrspatial.classify import _cpu_bin
-    return _cpu_bin(vals.reshape(1, -1), bins, newv)[0]
+    from xrspatial import classify
+    data = vals.reshape(1, -1)
+    try:
+        return classify._cpu_bin(data, bins, newv)[0]
+    except Exception:
+        # the private kernel no longer takes (2-D data, bins, new_values) -- e.g. it was flattened: a refactoring of a private
+        # signature is not a violation and must not crash the run.  Go through the module's own caller of the kernel, which
+        # adapts the arguments (the T3 refinement proof of `_cpu_bin` reports the changed text separately).
+        return np.asarray(classify._run_numpy_bin(data, bins, newv))[0]
 
 
 def bin_case(bins_t, vals_t, newv_t, ddt, bdt):
